@@ -36,7 +36,23 @@ func irNoUptr(n *sx) *sx {
 	return n
 }
 
-var irTypeOpts = TypeOpts{NoLib: true, NoRaw: true}
+var irTypeOpts = TypeOpts{NoRaw: true}
+
+// of the named library types only the plain recursive structs Rec and Tree are in the model (no callbacks)
+func irLibOnly(g *Gen, n *sx) *sx {
+	if n.isL && n.head() == "lib" {
+		if a := n.list[1].atom; a != "Rec" && a != "Tree" {
+			return listT("lib", atomT([]string{"Rec", "Tree"}[g.R.Intn(2)]))
+		}
+		return n
+	}
+	if n.isL {
+		for i, c := range n.list {
+			n.list[i] = irLibOnly(g, c)
+		}
+	}
+	return n
+}
 
 func irGenType(g *Gen, depth int) *sx {
 	var tn *sx
@@ -50,7 +66,7 @@ func irGenType(g *Gen, depth int) *sx {
 	default:
 		tn = genType(g, depth, irTypeOpts)
 	}
-	return irNoUptr(tn)
+	return irLibOnly(g, irNoUptr(tn))
 }
 
 // a struct with n scalar fields F0..F(n-1); the field at `at` (if >= 0) has type `inner`
@@ -103,10 +119,10 @@ func irEmitDis(g *Gen, tn *sx) {
 
 func irEmitMar(g *Gen, tn, v *sx) {
 	force := 0
-	if hasMultiMap(v) {
-		force = 1 // SortMapKeys
-	}
 	T, V := tn.String(), v.String()
+	if hasMultiMap(v) || mentionsTree(T) || mentionsTree(V) {
+		force = 1 // SortMapKeys (a Tree value travels as JSON text and may hold a map)
+	}
 	g.Emit("mar", strconv.FormatUint(stdBits(), 10), T, V)
 	g.Emit("mar", strconv.FormatUint(encMask(g.R.Intn(512)|force), 10), T, V)
 }
@@ -125,6 +141,9 @@ var irEdgeTypes = []string{
 	"(st (f A - u8) (f B - i64) (f C - bool) (f D - (st)) (f E - i16) (f F - (arr 0 i64)))",
 	"(st (f A - (st (f B - (st (f C - (st (f D - (st (f E - i64))))))))))",
 	"(ptr (st (f A - (ptr (st (f B - (sl (st (f C - (map str (st (f D - i64)))))))))))) ",
+	"(lib Rec)", "(lib Tree)", "(ptr (lib Rec))", "(sl (lib Tree))", "(arr 2 (lib Rec))", "(map str (lib Tree))",
+	"(st (f A - (lib Rec)) (f B - (lib Tree)) (f C - (ptr (lib Rec))))", "(st (f A - (st (f B - (st (f C - (lib Tree)))))))",
+	"(map i8 (map u64 (map int str)))", "(map bool i8)", "(map f64 i8)",
 }
 
 var irEdgeVals = [][2]string{
@@ -141,6 +160,11 @@ var irEdgeVals = [][2]string{
 	{"(sl any)", "(sl nil (any i64 (i 1)) (any (st (f A - any)) (st (any (sl str) (sl (s 78))))) (any (map str any) (map ((s 6b) nil))))"},
 	{"(st (f N - num) (f M 2c6f6d6974656d707479 num))", "(st (num -) (num -))"},
 	{"(st (f N - num))", "(st (num 2d))"},
+	{"(map i16 (map u8 bool))", "(map ((i 10) (map ((u 200) t) ((u 3) f))) ((i -2) nil) ((i -10) (map)))"},
+	{"(map bool i8)", "(map (t (i 1)))"},
+	{"(ptr (lib Rec))", "(ptr (lib 7b2276223a312c226e657874223a7b2276223a322c226e657874223a7b2276223a337d7d7d))"},
+	{"(sl (lib Tree))", "(sl (lib 7b226e223a2261222c226b696473223a5b7b226e223a2262222c226b696473223a6e756c6c7d2c7b226e223a2263222c226b696473223a5b5d2c226d223a7b2278223a7b226e223a2264222c226b696473223a6e756c6c7d2c2279223a6e756c6c7d7d5d7d))"},
+	{"(st (f A 612c6f6d6974656d707479 (sl any)) (f B 622c6f6d6974656d707479 (map str any)))", "(st (sl (any (lib Rec) (lib 7b2276223a357d)) (any (ptr i8) nil)) (map ((s 6b) (any (arr 1 any) (arr nil)))))"},
 }
 
 func init() {
